@@ -340,4 +340,11 @@ func BigFloatToFixedPointCRT(r *ring.Ring, values []*big.Float, scale *big.Float
 			}
 		}
 	}
+
+	// Clears the coefficients that have no value (as Float64ToFixedPointCRT does).
+	for j := range moduli {
+		for i := len(values); i < len(coeffs[j]); i++ {
+			coeffs[j][i] = 0
+		}
+	}
 }
